@@ -44,12 +44,16 @@ func determineResponseContentType(explicitHeaders map[string][]string, r *http.R
 }
 
 func writeHeaders(w http.ResponseWriter, headers map[string][]string) {
-	if len(headers) == 0 {
-		headers = map[string][]string{
-			// Stay with application/json (not application/graphql-response+json)
-			// as it is not an actively supported protocol for now
-			"Content-Type": {"application/json"},
+	hasContentType := false
+	for key := range headers {
+		if strings.EqualFold(key, "Content-Type") {
+			hasContentType = true
 		}
+	}
+	if !hasContentType {
+		// Stay with application/json (not application/graphql-response+json)
+		// as it is not an actively supported protocol for now
+		w.Header().Set("Content-Type", "application/json")
 	}
 
 	for key, values := range headers {
